@@ -99,6 +99,9 @@ func classify(err error, panicked any) (string, []string) {
 	if errors.Is(err, errClose) {
 		cls = append(cls, "closeerr")
 	}
+	if errors.Is(err, errRunaway) {
+		return "runaway", nil
+	}
 	if len(cls) == 0 {
 		return "other:" + firstLine(err.Error()), nil
 	}
@@ -131,42 +134,62 @@ const stallLimit = 6 * time.Second
 func stallExit(what string) {
 	buf := make([]byte, 4<<20)
 	n := runtime.Stack(buf, true)
-	fmt.Fprintf(os.Stderr, "\nSTALL-DUMP waiting for %s\n%s\nSTALL-DUMP-END\n", what, buf[:n])
+	nb := 0
+	if sc := current.Load(); sc != nil {
+		nb = int(atomic.LoadInt32(&sc.nestedAfterClose))
+	}
+	fmt.Fprintf(os.Stderr, "\nSTALL-DUMP waiting for %s\nNESTED-BOUNDARIES-AFTER-CLOSE=%d\n%s\nSTALL-DUMP-END\n", what, nb, buf[:n])
 	os.Exit(7)
 }
 
-// wait blocks until ch is closed / yields. In timer-free mixes it is a plain receive, so that a deadlock of the code
-// under test leaves every goroutine asleep and the Go runtime aborts the process.
-func (sc *scen) waitStr(ch <-chan string, alt <-chan struct{}, what string) (string, bool) {
-	if !timered(sc.S.Mix) {
-		select {
-		case p := <-ch:
-			return p, true
-		case <-alt:
-			return "", false
-		}
+// errAbandoned: the logical deadlock monitor has declared the scenario dead; its goroutines stay parked forever and
+// the script moves on to the next scenario.
+var errAbandoned = errors.New("scenario abandoned after logical deadlock")
+
+// waitStr / wait block until ch yields. In timer-free mixes they are plain channel operations (plus the abandon
+// channel the monitor uses), so that a deadlock of the code under test leaves every goroutine parked.
+func (sc *scen) waitStr(ch <-chan string, alt <-chan struct{}, what string) (string, bool, error) {
+	var stall <-chan time.Time
+	if timered(sc.S.Mix) {
+		stall = time.After(stallLimit)
 	}
 	select {
 	case p := <-ch:
-		return p, true
+		return p, true, nil
 	case <-alt:
-		return "", false
-	case <-time.After(stallLimit):
+		return "", false, nil
+	case <-sc.abandon:
+		return "", false, errAbandoned
+	case <-stall:
 		stallExit(what)
 	}
-	return "", false
+	return "", false, nil
 }
 
-func (sc *scen) wait(ch <-chan struct{}, what string) {
-	if !timered(sc.S.Mix) {
-		<-ch
-		return
+func (sc *scen) wait(ch <-chan struct{}, what string) error {
+	var stall <-chan time.Time
+	if timered(sc.S.Mix) {
+		stall = time.After(stallLimit)
 	}
 	select {
 	case <-ch:
-	case <-time.After(stallLimit):
+		return nil
+	case <-sc.abandon:
+		return errAbandoned
+	case <-stall:
 		stallExit(what)
 	}
+	return nil
+}
+
+func goid() string {
+	var b [64]byte
+	n := runtime.Stack(b[:], false)
+	f := strings.Fields(string(b[:n]))
+	if len(f) > 1 {
+		return f[1]
+	}
+	return "?"
 }
 
 type stoppers struct {
@@ -174,10 +197,16 @@ type stoppers struct {
 	wg       sync.WaitGroup
 	launched int32
 	returned int32
+	mu       sync.Mutex
+	ids      map[string]bool // goroutine ids of this scenario's Stop callers
 }
 
 func (st *stoppers) stopperDet(i int) {
 	defer st.wg.Done()
+	id := goid()
+	st.mu.Lock()
+	st.ids[id] = true
+	st.mu.Unlock()
 	st.sc.ev("stop-call", fmt.Sprint(i))
 	st.sc.ctx.Stop()
 	st.sc.ev("stop-ret", fmt.Sprint(i))
@@ -194,35 +223,56 @@ func (st *stoppers) launch(n int) {
 
 // settle returns when every launched Stop caller has either returned or is parked inside Stop (on the lock, in the
 // channel send or waiting for awaitExit) — a logical "they have all arrived", found by looking at goroutine states.
+var settleBuf = make([]byte, 4<<20) // only used by the script goroutine
+
 func (st *stoppers) settle() {
-	buf := make([]byte, 1<<20)
-	for {
+	buf := settleBuf
+	pause := 10 * time.Microsecond
+	for it := 0; ; it++ {
+		atomic.AddInt64(&progress, 1)
 		runtime.Gosched()
+		if it > 2 { // be polite while the callers get on the CPU; the pause decides nothing
+			time.Sleep(pause)
+			if pause < time.Millisecond {
+				pause *= 2
+			}
+		}
 		n := runtime.Stack(buf, true)
 		parkedN := 0
+		st.mu.Lock()
 		for _, g := range parseDump(string(buf[:n])) {
-			if g.has("main.(*stoppers).stopperDet") && g.has(ctxPrefix+"Stop") && parked(g.State) {
+			if st.ids[g.ID] && g.has(ctxPrefix+"Stop") && parked(g.State) {
 				parkedN++
 			}
 		}
+		st.mu.Unlock()
 		if int32(parkedN)+atomic.LoadInt32(&st.returned) >= atomic.LoadInt32(&st.launched) {
 			return
 		}
 	}
 }
 
-func (st *stoppers) waitAll(what string) {
+func (st *stoppers) waitAll(what string) error {
 	done := make(chan struct{})
 	go func() { st.wg.Wait(); close(done) }()
-	st.sc.wait(done, what)
+	return st.sc.wait(done, what)
 }
 
-func (sc *scen) installHooks() {
+// installHooks is called once per child: the callbacks dispatch on the current scenario, so the global hook table is
+// never rewritten while goroutines of an abandoned scenario may still be around.
+func installHooks() {
 	distsys.VerifHooks = distsys.VerifHookSet{
 		LoopHead: func(ctx *distsys.MPCalContext, archetype string, self tla.Value, err error) {
-			if ctx != sc.ctx {
+			sc := current.Load()
+			if sc != nil && archetype == "N" && atomic.LoadInt32(&sc.nestedCloseBegan) == 1 {
+				// label boundaries the nested context passes while the outer cleanup is inside the nested resource's Close:
+				// each one is a point where a Stop issued by that Close would have pre-empted it
+				atomic.AddInt32(&sc.nestedAfterClose, 1)
+			}
+			if sc == nil || archetype != "A" || ctx != sc.ctx { // "A" = the context under test; nested contexts are "N"
 				return
 			}
+			atomic.AddInt64(&progress, 1)
 			if atomic.LoadInt32(&sc.second) == 1 {
 				atomic.AddInt32(&sc.loopHeads2, 1)
 				return
@@ -235,7 +285,8 @@ func (sc *scen) installHooks() {
 			sc.loopHeads++
 		},
 		CommitPoint: func(ctx *distsys.MPCalContext, archetype string, self tla.Value, elems []trace.Element) {
-			if ctx != sc.ctx {
+			sc := current.Load()
+			if sc == nil || archetype != "A" || ctx != sc.ctx { // "A" = the context under test; nested contexts are "N"
 				return
 			}
 			if atomic.LoadInt32(&sc.second) == 1 {
@@ -255,7 +306,8 @@ func (sc *scen) installHooks() {
 			}
 		},
 		RunExit: func(ctx *distsys.MPCalContext, archetype string, self tla.Value, err error) {
-			if ctx != sc.ctx {
+			sc := current.Load()
+			if sc == nil || archetype != "A" || ctx != sc.ctx { // "A" = the context under test; nested contexts are "N"
 				return
 			}
 			atomic.StoreInt32(&sc.runExit, 1)
@@ -275,20 +327,22 @@ func (sc *scen) finishNested(o *Obs) {
 	}
 }
 
-func (sc *scen) runDet() Obs {
+func (sc *scen) runDet() (o Obs, err error) {
 	S := sc.S
-	o := Obs{Kind: "result", ID: S.ID}
+	o = Obs{Kind: "result", ID: S.ID}
 	sc.sections = 2
 	sc.armed = map[string]bool{}
 	sc.at = make(chan string)
 	sc.resume = make(chan struct{})
 	sc.build()
-	sc.installHooks()
-	st := &stoppers{sc: sc}
+	st := &stoppers{sc: sc, ids: map[string]bool{}}
+	sc.st = st
 
 	if S.Timing == "before" || S.Timing == "norun" {
 		st.launch(S.Stops)
-		st.waitAll("Stop callers before Run")
+		if err = st.waitAll("Stop callers before Run"); err != nil {
+			return
+		}
 	}
 	if S.Timing != "norun" {
 		var gates []string
@@ -304,16 +358,22 @@ func (sc *scen) runDet() Obs {
 		}
 		runDone := make(chan struct{})
 		o.RunCalled = true
+		var runClass string
+		var runClasses []string
+		var closesAtRet map[string]int
 		go func() {
 			sc.ev("run-call", "")
 			err, p := safeRun(sc.ctx)
-			o.RunClass, o.RunClasses = classify(err, p)
-			o.ClosesAtRet = sc.closeCounts()
-			sc.ev("run-ret", o.RunClass)
+			runClass, runClasses = classify(err, p)
+			closesAtRet = sc.closeCounts()
+			sc.ev("run-ret", runClass)
 			close(runDone)
 		}()
 		for _, g := range gates {
-			p, ok := sc.waitStr(sc.at, runDone, "gate "+g)
+			p, ok, e := sc.waitStr(sc.at, runDone, "gate "+g)
+			if e != nil {
+				return o, e
+			}
 			if !ok {
 				o.GateMissed = g // Run ended without reaching the position (never the case on the pinned tree)
 				break
@@ -323,53 +383,72 @@ func (sc *scen) runDet() Obs {
 			}
 			if p == S.Timing {
 				if S.Second == "during" {
-					sc.secondRun(&o)
+					if err = sc.secondRun(&o); err != nil {
+						return
+					}
 				}
 				st.launch(S.Stops)
 			}
 			if !(p == "cleanup" && S.Timing == "cleanup" && S.Cleanup == "instant") {
 				st.settle()
 			}
+			atomic.StoreInt32(&sc.stopsSettled, 1)
 			sc.resume <- struct{}{}
 		}
-		sc.wait(runDone, "Run to return")
+		if err = sc.wait(runDone, "Run to return"); err != nil {
+			return
+		}
+		o.RunClass, o.RunClasses, o.ClosesAtRet = runClass, runClasses, closesAtRet
 		if S.Timing == "after" {
 			st.launch(S.Stops)
 		}
-		st.waitAll("Stop callers to return")
+		if err = st.waitAll("Stop callers to return"); err != nil {
+			return
+		}
 	}
 	o.StopsReturned = int(atomic.LoadInt32(&st.returned))
 	o.Started = sc.loopHeads > 0 || atomic.LoadInt32(&sc.runExit) == 1
 	o.FinalExecuted = sc.finalExecuted
 	o.ClosesAtEnd = sc.closeCounts()
 	if S.Second == "after" {
-		sc.secondRun(&o)
+		if err = sc.secondRun(&o); err != nil {
+			return
+		}
 	}
 	sc.finishNested(&o)
-	distsys.VerifHooks = distsys.VerifHookSet{}
-	return o
+	return
 }
 
-// secondRun calls Run a second time from the script's goroutine. Section bodies executed by it return ErrDone
-// immediately (so it ends even when the archetype loops forever); it is observed through the H1 hooks.
-func (sc *scen) secondRun(o *Obs) {
+// secondRun calls Run a second time. Section bodies executed by it return ErrDone immediately (so it ends even
+// when the archetype loops forever); it is observed through the H1 hooks.
+func (sc *scen) secondRun(o *Obs) error {
 	sc.ev("run2-call", "")
 	atomic.StoreInt32(&sc.second, 1)
-	err, p := safeRun(sc.ctx)
+	done := make(chan struct{})
+	var cls string
+	go func() {
+		err, p := safeRun(sc.ctx)
+		cls, _ = classify(err, p)
+		close(done)
+	}()
+	if err := sc.wait(done, "second Run to return"); err != nil {
+		return err
+	}
 	atomic.StoreInt32(&sc.second, 0)
-	o.SecondClass, _ = classify(err, p)
+	o.SecondClass = cls
 	o.LoopHeads2 = int(atomic.LoadInt32(&sc.loopHeads2))
 	o.Bodies2 = int(atomic.LoadInt32(&sc.bodies2))
 	o.Commits2 = int(atomic.LoadInt32(&sc.commits2))
 	o.ClosesAfter2 = sc.closeCounts()
 	sc.ev("run2-ret", o.SecondClass)
+	return nil
 }
 
 // runJit: Run and the Stop callers are released together and race freely; timing varies through PRNG-chosen
 // amounts of yielding. Only counters (atomics) are shared with the code under test, no event log.
-func (sc *scen) runJit() Obs {
+func (sc *scen) runJit() (o Obs, err error) {
 	S := sc.S
-	o := Obs{Kind: "result", ID: S.ID}
+	o = Obs{Kind: "result", ID: S.ID}
 	rng := rand.New(rand.NewSource(S.Jitter))
 	sc.sections = 3 + rng.Intn(10)
 	sc.bodySpin = rng.Intn(4)
@@ -397,7 +476,6 @@ func (sc *scen) runJit() Obs {
 		}
 	}
 	sc.build()
-	sc.installHooks()
 	start := make(chan struct{})
 	var wg sync.WaitGroup
 	var returned int32
@@ -408,6 +486,7 @@ func (sc *scen) runJit() Obs {
 			defer wg.Done()
 			<-start
 			spin(d)
+			atomic.AddInt32(&sc.stopsCalling, 1)
 			sc.ctx.Stop()
 			t := atomic.AddInt64(&sc.stamp, 1)
 			atomic.CompareAndSwapInt64(&sc.firstStopRet, 0, t)
@@ -415,19 +494,25 @@ func (sc *scen) runJit() Obs {
 		}()
 	}
 	o.RunCalled = true
+	var runClass string
+	var runClasses []string
+	var closesAtRet map[string]int
 	wg.Add(1)
 	go func() {
 		defer wg.Done()
 		<-start
 		spin(runDelay)
 		err, p := safeRun(sc.ctx)
-		o.RunClass, o.RunClasses = classify(err, p)
-		o.ClosesAtRet = sc.closeCounts()
+		runClass, runClasses = classify(err, p)
+		closesAtRet = sc.closeCounts()
 	}()
 	close(start)
 	done := make(chan struct{})
 	go func() { wg.Wait(); close(done) }()
-	sc.wait(done, "Run and Stop callers to return")
+	if err = sc.wait(done, "Run and Stop callers to return"); err != nil {
+		return
+	}
+	o.RunClass, o.RunClasses, o.ClosesAtRet = runClass, runClasses, closesAtRet
 	o.StopsReturned = int(returned)
 	o.Started = sc.loopHeads > 0 || atomic.LoadInt32(&sc.runExit) == 1
 	o.FinalExecuted = sc.finalExecuted
@@ -442,8 +527,95 @@ func (sc *scen) runJit() Obs {
 		o.StopLanding = "mid-run"
 	}
 	sc.finishNested(&o)
-	distsys.VerifHooks = distsys.VerifHookSet{}
-	return o
+	return
+}
+
+// ---------------------------------------------------------------------------------------------
+// logical deadlock monitor
+//
+// The Go runtime's own "all goroutines are asleep" abort never fires in this binary: it links cgo (through package
+// net, pulled in by distsys/resources, and through -race), and the runtime does not run its detector in cgo
+// programs. The monitor evaluates the same criterion on a stop-the-world snapshot of all goroutines
+// (runtime.Stack(all)): in a scenario whose code uses no timers, sockets or syscalls (the small mixes), if at one
+// instant every goroutine of the program except the monitor is parked in a channel / mutex / wait-group operation,
+// no event can ever wake any of them. The monitor's own sleep only decides when the snapshot is taken.
+// ---------------------------------------------------------------------------------------------
+
+var monitorOn int32
+var progress int64 // bumped by every harness event; the monitor only looks at goroutine states when it stands still
+var abandonedN int32
+var current atomic.Pointer[scen]
+
+func userGoroutine(g gor) bool {
+	for _, f := range g.Frames {
+		if strings.HasPrefix(f, "main.") || strings.Contains(f, "github.com/DistCompiler/") {
+			return true
+		}
+	}
+	return false
+}
+
+// asleepSnapshot returns (fingerprint, dump) if every user goroutine except the monitor is parked, else ("", "").
+func asleepSnapshot(buf []byte) (string, string) {
+	n := runtime.Stack(buf, true)
+	dump := string(buf[:n])
+	var fp []string
+	users := 0
+	for _, g := range parseDump(dump) {
+		if !userGoroutine(g) || g.has("main.monitor") {
+			continue
+		}
+		users++
+		if !parked(g.State) {
+			return "", ""
+		}
+		fp = append(fp, g.State+"@"+strings.Join(g.Frames, "<"))
+	}
+	if users == 0 {
+		return "", ""
+	}
+	return strings.Join(fp, "|"), dump
+}
+
+func monitor() {
+	buf := make([]byte, 4<<20)
+	lastProgress := int64(-1)
+	for {
+		time.Sleep(2 * time.Millisecond)
+		if atomic.LoadInt32(&monitorOn) == 0 {
+			continue
+		}
+		if p := atomic.LoadInt64(&progress); p != lastProgress {
+			lastProgress = p
+			continue
+		}
+		fp1, _ := asleepSnapshot(buf)
+		if fp1 == "" {
+			continue
+		}
+		// confirm on a second snapshot (same goroutines, same positions); not needed for soundness, cheap insurance
+		spin(100)
+		time.Sleep(5 * time.Millisecond)
+		if atomic.LoadInt32(&monitorOn) == 0 {
+			continue
+		}
+		fp2, dump := asleepSnapshot(buf)
+		if fp2 != fp1 {
+			continue
+		}
+		// declare the scenario dead: record the snapshot, let the script abandon it (its goroutines stay parked
+		// forever, which keeps the criterion sound for later scenarios) and go on
+		sc := current.Load()
+		atomic.StoreInt32(&monitorOn, 0)
+		atomic.AddInt32(&abandonedN, 1)
+		sc.out.write(map[string]any{"kind": "deadlock", "id": sc.S.ID, "dump": dump})
+		select {
+		case sc.abandon <- struct{}{}:
+		case <-time.After(5 * time.Second): // the script itself is stuck inside the code under test: give the process up
+			fmt.Fprintf(os.Stderr, "\nLOGICAL-DEADLOCK: all goroutines are asleep (timer-free scenario)\n%s\nLOGICAL-DEADLOCK-END\n", dump)
+			os.Exit(8)
+		}
+	}
 }
 
 // childMain: argv = <scenario-file> <out-file> [<first-index>]
@@ -467,17 +639,33 @@ func childMain() {
 	if len(args) > 2 {
 		fmt.Sscan(args[2], &first)
 	}
+	installHooks()
+	go monitor()
 	for i := first; i < len(scs); i++ {
 		S := scs[i]
 		out.write(map[string]any{"kind": "begin", "id": S.ID, "index": i})
-		sc := &scen{S: S, out: out}
+		sc := &scen{S: S, out: out, abandon: make(chan struct{})}
+		current.Store(sc)
 		var o Obs
-		if S.Mode == "jit" {
-			o = sc.runJit()
-		} else {
-			o = sc.runDet()
+		var err error
+		if !timered(S.Mix) {
+			atomic.StoreInt32(&monitorOn, 1)
 		}
-		out.write(o)
+		if S.Mode == "jit" {
+			o, err = sc.runJit()
+		} else {
+			o, err = sc.runDet()
+		}
+		atomic.StoreInt32(&monitorOn, 0)
+		if err == nil {
+			out.write(o)
+		}
+		if atomic.LoadInt32(&abandonedN) >= 40 && i+1 < len(scs) {
+			// the parked goroutines of abandoned scenarios make every goroutine snapshot longer: start afresh
+			out.write(map[string]any{"kind": "recycle", "next": i + 1})
+			f.Close()
+			os.Exit(0)
+		}
 	}
 	out.write(map[string]any{"kind": "end"})
 	f.Close()
